@@ -253,6 +253,59 @@ theorem model_save_passes_outdated_clause (s : JState) (w : World) (linked : Lis
   have := progOutdated_false_oracle s w hc 64 q.1 q.2 (by simpa using hany q hq)
   simp [this]
 
+/-! ### the clause `include-shadowed-by` -/
+
+/-- what `inc_open` opens is the first candidate that exists -/
+theorem incOpen_fst (w : World) : ∀ cands : List String,
+    (incOpen w cands).map (·.1) = cands.find? (fun c => (w.mtime c).isSome) := by
+  intro cands
+  induction cands with
+  | nil => rfl
+  | cons c rest ih =>
+    unfold incOpen
+    by_cases hc : (w.mtime c).isSome = true
+    · simp [hc]
+    · simp only [hc, Bool.false_eq_true, if_false, List.find?_cons]
+      rw [← ih]
+      cases incOpen w rest <;> simp
+
+/-- **model_use_passes_shadow_clause**: the clause `include-shadowed-by` of the oracle compares what every declared include
+    directive of the program resolved to when the binary was saved (oracle state `s0`, world `w0`) with what it resolves
+    to when the binary is used (`s`, `w`).  If the binary lists what `inc_open` did at compile time (the file read among
+    `includes`, every missed candidate among the '!' entries) and the model's `load_binary` uses it, both lists are equal:
+    the clause cannot fire on a `lb … use` line of the model. -/
+theorem model_use_passes_shadow_clause (s0 s : JState) (w0 w : World) (name : String) (b : BinFile)
+    (hf0 : ∀ p, s0.mt p = w0.mtime p) (hf : ∀ p, s.mt p = w.mtime p) (hdecl : s0.incsearch = s.incsearch)
+    (hdirs : ∀ d, d ∈ s.incsearch → d.1 = name →
+      ∃ r missed, incOpen w0 d.2 = some (r, missed) ∧ r ∈ b.includes ∧ ∀ c, c ∈ missed → c ∈ b.absent)
+    (hb : w.bins.lookup (binPath w name) = some b) (h : loadBinary w name = .use) :
+    resolveNow s0 name = resolveNow s name := by
+  unfold resolveNow
+  rw [hdecl]
+  apply List.map_congr_left
+  intro d hd
+  rw [List.mem_filter] at hd
+  obtain ⟨r, missed, hopen, hr, hm⟩ := hdirs d hd.1 (by simpa using hd.2)
+  have h0 : d.2.find? (fun c => (s0.mt c).isSome) = some r := by
+    have := incOpen_fst w0 d.2
+    rw [hopen] at this
+    simp only [Option.map_some] at this
+    have e : (fun c => (s0.mt c).isSome) = (fun c => (w0.mtime c).isSome) := by
+      funext c
+      rw [hf0 c]
+    rw [e]
+    exact this.symm
+  have h1 : d.2.find? (fun c => (s.mt c).isSome) = some r := by
+    have := includes_resolve_as_recorded w0 w name b d.2 r missed hopen hb hr hm h
+    unfold resolveIncludeP at this
+    have e : (fun c => (s.mt c).isSome) = (fun c => (w.mtime c).isSome) := by
+      funext c
+      rw [hf c]
+    rw [e]
+    exact this
+  rw [h0, h1]
+
+
 /-- non-vacuity: a program with an include file and the simul_efun file, all older than its binary -/
 example :
     let w : World := { files := [("B/a", 200), ("d/a.c", 100), ("d/x.h", 150), ("simul_efun.c", 50)],
